@@ -645,6 +645,11 @@ def sym_min(*args, **kw):
         args = seq
     if not any(isinstance(a, Sym) for a in args):
         return builtins.min(*args)
+    if any(isinstance(a, Sym) and z3.is_bv(a.t) for a in args):
+        r = args[0]
+        for a in args[1:]:
+            r = a if bool(a < r) else r
+        return r
     r = args[0]
     for a in args[1:]:
         ta, tr = coerce2(a, r)
@@ -660,6 +665,11 @@ def sym_max(*args, **kw):
         args = seq
     if not any(isinstance(a, Sym) for a in args):
         return builtins.max(*args)
+    if any(isinstance(a, Sym) and z3.is_bv(a.t) for a in args):
+        r = args[0]
+        for a in args[1:]:
+            r = a if bool(a > r) else r      # bit-vector proxies: decide by forking
+        return r
     r = args[0]
     for a in args[1:]:
         ta, tr = coerce2(a, r)
